@@ -271,6 +271,7 @@ type Call struct {
 	Hdr    *Hdr   `json:"hdr,omitempty"`   // *Element variants of the SendX family: the stanza header
 	Fail   bool   `json:"fail,omitempty"`  // reader (or WriterTo) fails after its tokens
 	MErr   bool   `json:"merr,omitempty"`  // the value cannot be marshaled
+	Text   string `json:"text,omitempty"`  // form innerxml: the text between the tags of Src
 	Start  *MTok  `json:"start,omitempty"` // SendElement / EncodeElement
 	Flush  []int  `json:"flush,omitempty"` // tokenwriter: Flush before the token with this index
 	NewID  string `json:"newid,omitempty"` // sendx: id drawn before the lock (observed)
@@ -384,4 +385,35 @@ func (c *Call) CanMid() bool {
 		}
 	}
 	return false
+}
+
+// AsWritten turns a tree parsed by encoding/xml (res: element names resolved
+// through inherited default name spaces) back into the element names as
+// written, with the help of its raw view (raw: same shape, names with
+// prefixes): a prefixed element is in the name space its prefix is bound to, an
+// unprefixed one in the name space of its own xmlns attribute, or in none of
+// its own (it inherits from wherever it is placed). Attribute names keep their
+// true name spaces.
+func AsWritten(raw, res *Tree) *Tree {
+	if res == nil || res.Kind != "elem" {
+		return res
+	}
+	e := &Tree{Kind: "elem", Name: MName{Local: res.Name.Local}, Attrs: res.Attrs}
+	if raw != nil && raw.Kind == "elem" && raw.Name.Space != "" {
+		e.Name.Space = res.Name.Space
+	} else {
+		for _, a := range res.Attrs {
+			if a.Name.Space == "" && a.Name.Local == "xmlns" {
+				e.Name.Space = a.Value
+			}
+		}
+	}
+	for i, k := range res.Kids {
+		var rk *Tree
+		if raw != nil && i < len(raw.Kids) {
+			rk = raw.Kids[i]
+		}
+		e.Kids = append(e.Kids, AsWritten(rk, k))
+	}
+	return e
 }
